@@ -346,6 +346,7 @@ func checkC08(c *Ctx) {
 	c8UseAfterRelease(c, "R8.3", releaseFns)
 	c8SingleRelease(c)
 	c8Ownership(c)
+	c8CloneOwnership(c, "R8.5")
 	c.Rule("R8.7", "no value built from a parent shares a slice tail with it (what a derived handler or an emitted entry holds cannot be overwritten by deriving or logging again)", 1)
 	c7AppendsAll(c, "R8.7")
 	c.Rule("R8.6", "encoding an entry never modifies the logger's shared encoder (what an entry looks like cannot depend on the entries logged before it)", 3)
@@ -761,4 +762,64 @@ func closureIsDeferred(g *ssa.Function) bool {
 		}
 	})
 	return ok
+}
+
+// c8CloneOwnership: by path exploration of jsonEncoder.clone / Clone: the encoder handed out shares no buffer and no
+// reflection encoder with the one it was cloned from - each *buffer.Buffer field (and reflectEnc, which writes into
+// one) of the result is fresh, nil, or whatever the pooled object held, never the receiver's (a whole-struct copy
+// counts for every field that is not reassigned afterwards). Two owners of one pooled buffer both free it.
+func c8CloneOwnership(c *Ctx, rule string) {
+	jn := c.Named(CorePath, "jsonEncoder")
+	if !c.Anchor(rule, "zapcore.jsonEncoder", jn != nil) {
+		return
+	}
+	stt, _ := jn.Underlying().(*types.Struct)
+	var owned []string
+	for i := 0; stt != nil && i < stt.NumFields(); i++ {
+		tn := TypeName(stt.Field(i).Type())
+		if tn == "*buffer.Buffer" || strings.HasSuffix(tn, "ReflectedEncoder") {
+			owned = append(owned, stt.Field(i).Name())
+		}
+	}
+	n := 0
+	for _, m := range []string{"clone", "Clone"} {
+		fn := c.Method(CorePath, "jsonEncoder", m)
+		if fn == nil {
+			continue
+		}
+		rn := fn.Params[0].Name()
+		var bad []string
+		seqs, trunc := ConcPaths(fn, ConcCfg{
+			MaxDepth:  8,
+			Inline:    func(h *ssa.Function) bool { return h.Pkg != nil && h.Pkg.Pkg.Path() == CorePath },
+			InlineAny: func(h *ssa.Function) bool { r := RecvNamed(h); return r != nil && r.Obj() == jn.Obj() },
+			Event: func(in ssa.Instruction, st *ConcState) string {
+				r, ok := in.(*ssa.Return)
+				if !ok || len(r.Results) != 1 {
+					return ""
+				}
+				fields := st.FieldsOf(r.Results[0])
+				whole := fields["*"]
+				for _, f := range owned {
+					d, has := fields[f]
+					switch {
+					case has && (d == rn+"."+f || strings.HasPrefix(d, rn+".")):
+						bad = append(bad, f+" = "+d)
+					case !has && (whole == "*"+rn || whole == rn):
+						bad = append(bad, f+" copied with the whole struct from "+rn)
+					}
+				}
+				return "ret"
+			},
+		})
+		if trunc || len(seqs) == 0 {
+			c.Und(rule, fn.String(), "clone-owns-its-buffers", fn.Pos(), "path exploration incomplete")
+			continue
+		}
+		n++
+		c.Check(len(bad) == 0, rule, fn.String(), "clone-owns-its-buffers", fn.Pos(), "the encoder handed out shares none of %v with the encoder it was cloned from: %v", owned, bad)
+	}
+	if n == 0 {
+		c.Bad(rule, "zapcore.jsonEncoder", "clone-owns-its-buffers", jn.Obj().Pos(), "no clone function found")
+	}
 }
